@@ -500,6 +500,14 @@ fn classify_link(input: &str, mirror: bool, reduced: bool) -> (LinkClass, Option
 
 // ---------------------------------------------------------------------------------------------------------------
 
+/// char-boundary-safe truncation (the shared `yv::trunc` slices at a byte index)
+fn cut(s: &str, n: usize) -> String {
+    if s.len() <= n { return s.to_string() }
+    let mut e = n;
+    while !s.is_char_boundary(e) { e -= 1 }
+    format!("{}…[{} bytes]", &s[..e], s.len())
+}
+
 fn hex(s: &str) -> String {
     if s.is_empty() { "-".into() } else { s.bytes().map(|b| format!("{:02x}", b)).collect() }
 }
@@ -612,7 +620,7 @@ fn rand_cval(r: &mut Rng) -> String {
 
 fn main() {
     let args = Args::parse();
-    quiet_panics();
+    if std::env::var("C20_LOUD").is_err() { quiet_panics(); }
     match args.extra.iter().position(|a| a == "--ykh") {
         Some(p) => { YKH.set(args.extra[p + 1].clone()).unwrap(); }
         None => { build_ykh(); YKH.set(YKH_DEFAULT.to_string()).unwrap(); }
@@ -722,7 +730,7 @@ fn main() {
         sink.oracle(!o.timed_out, "the command terminates within the time limit", &desc, &format!("killed after {} ms", o.millis));
         if o.timed_out { sink.count("outcome.hang"); }
         if !o.timed_out {
-            sink.oracle(o.code.is_some(), "the command ends with an exit status (not killed by a signal)", &desc, &trunc(&o.stderr, 400));
+            sink.oracle(o.code.is_some(), "the command ends with an exit status (not killed by a signal)", &desc, &cut(&o.stderr, 400));
         }
         let code = o.code.unwrap_or(-1);
         let stdout_blank = o.stdout.trim().is_empty();
@@ -737,7 +745,7 @@ fn main() {
             // ---- a table is claimed
             match parse_table(&o.stdout) {
                 Err(e) => {
-                    sink.oracle(false, "exit status 0 comes with a table on stdout", &desc, &format!("{e}: {}", trunc(&o.stdout, 300)));
+                    sink.oracle(false, "exit status 0 comes with a table on stdout", &desc, &format!("{e}: {}", cut(&o.stdout, 300)));
                     reply = "ring ? exit=0".to_string();
                 }
                 Ok(tab) => {
@@ -757,24 +765,24 @@ fn main() {
                     }
                     if let Some(sy) = &sym { for txt in tab.cells.values() { seen_cells.insert((sy.clone(), txt.clone())); } }
                     if let Some(e) = &cell_err {
-                        sink.oracle(false, "every printed cell reads as a group rank/torsion text", &desc, e);
+                        sink.oracle(false, "every printed cell reads as a group rank/torsion text", &desc, &cut(e, 1500));
                     }
                     let ring = sym.as_deref().and_then(ring_of_symbol);
                     let fmt = if tab.bigraded { "bigraded" } else { "graded" };
                     reply = match ring { Some((b, v)) => format!("ring {} {} exit=0", ring_tag(b, v), fmt), None => format!("ring ? {} exit=0", fmt) };
                     sink.count(&format!("outcome.table.{}", ring.map(|(b, v)| ring_tag(b, v)).unwrap_or("?".into())));
                     if c.cmd == Cmd::Kh && matches!(c.cval.as_str(), "0" | "0,0" | "H" | "0,T") {
-                        sink.oracle(tab.bigraded, "for h = t = 0 and for the graded theories -c H and -c 0,T the groups are listed by (i,j)", &desc, &trunc(&o.stdout, 200));
+                        sink.oracle(tab.bigraded, "for h = t = 0 and for the graded theories -c H and -c 0,T the groups are listed by (i,j)", &desc, &cut(&o.stdout, 200));
                     }
                     if cell_err.is_none() {
                         match (ring, &link, lclass) {
                             (_, _, LinkClass::Invalid) | (_, _, LinkClass::Panics) | (_, None, _) =>
-                                sink.oracle(false, "a malformed or unknown link argument is reported as an error, never as a table", &desc, &trunc(&o.stdout, 300)),
+                                sink.oracle(false, "a malformed or unknown link argument is reported as an error, never as a table", &desc, &cut(&o.stdout, 300)),
                             (None, _, _) if sym.is_none() =>
                                 // Khovanov homology / the Khovanov complex of a link is never zero (its Euler characteristic is the Jones polynomial)
-                                sink.oracle(false, "the table lists exactly the non-zero groups the library computes, in the right (i,j) cells", &desc, &format!("the printed table has no non-zero cell: {}", trunc(&o.stdout, 300))),
+                                sink.oracle(false, "the table lists exactly the non-zero groups the library computes, in the right (i,j) cells", &desc, &format!("the printed table has no non-zero cell: {}", cut(&o.stdout, 300))),
                             (None, _, _) =>
-                                sink.oracle(false, "the table's groups are over a known coefficient ring", &desc, &format!("symbol {:?}: {}", sym, trunc(&o.stdout, 300))),
+                                sink.oracle(false, "the table's groups are over a known coefficient ring", &desc, &format!("symbol {:?}: {}", sym, cut(&o.stdout, 300))),
                             (Some((b, v)), Some(l), _) => {
                                 sink.oracle(b == c.ctype, "the table is over the coefficient type requested with -t", &desc, &format!("printed ring {}", ring_tag(b, v)));
                                 let lm = l.clone();   // already mirrored
@@ -822,12 +830,12 @@ fn main() {
                                             for (k, g) in &eg { if groups.get(k) != Some(g) { detail += &format!("library {:?}={:?} printed {:?}; ", k, g, groups.get(k)); } }
                                             for (k, g) in &groups { if !eg.contains_key(k) { detail += &format!("printed {:?}={:?} library 0; ", k, g); } }
                                         }
-                                        sink.oracle(ok, "the table lists exactly the non-zero groups the library computes, in the right (i,j) cells", &desc, &detail);
+                                        sink.oracle(ok, "the table lists exactly the non-zero groups the library computes, in the right (i,j) cells", &desc, &cut(&detail, 1500));
                                         sink.count_n("cells.compared", eg.len() as u64);
                                     }
-                                    Expect::NotAValue => sink.oracle(false, "a coefficient value that is not a value (pair) of the ring, or -r with t ≠ 0, is reported as an error, never as a table", &desc, &trunc(&o.stdout, 300)),
+                                    Expect::NotAValue => sink.oracle(false, "a coefficient value that is not a value (pair) of the ring, or -r with t ≠ 0, is reported as an error, never as a table", &desc, &cut(&o.stdout, 300)),
                                     Expect::NoSuchRing => sink.oracle(false, "a table is printed only for a ring the library can compute this command over", &desc, &format!("ring {}", ring_tag(b, v))),
-                                    Expect::Panic => sink.oracle(false, "an internal failure of the library is reported as an error, never as a table", &desc, &trunc(&o.stdout, 300)),
+                                    Expect::Panic => sink.oracle(false, "an internal failure of the library is reported as an error, never as a table", &desc, &cut(&o.stdout, 300)),
                                 }
                             }
                         }
@@ -838,13 +846,13 @@ fn main() {
             // ---- an error is claimed
             let has_msg = !o.stderr.trim().is_empty();
             sink.oracle(has_msg, "an error result carries a message on stderr", &desc, &format!("exit {code}"));
-            sink.oracle(stdout_blank, "an error result prints no table (nothing) on stdout", &desc, &trunc(&o.stdout, 300));
+            sink.oracle(stdout_blank, "an error result prints no table (nothing) on stdout", &desc, &cut(&o.stdout, 300));
             let cls = err_class(&o.stderr);
             sink.count(&format!("outcome.{}", cls));
             reply = format!("{cls} exit={code}{}{}", if stdout_blank { " notable" } else { "" }, if has_msg { " msg" } else { "" });
             // documented combinations on a valid link must not be refused
             if lclass == LinkClass::Ok && documented_supported(c) {
-                sink.oracle(false, "a documented supported combination on a valid link yields a table", &desc, &trunc(&o.stderr, 300));
+                sink.oracle(false, "a documented supported combination on a valid link yields a table", &desc, &cut(&o.stderr, 300));
             }
             nontrivial = true;
         } else {
